@@ -12,7 +12,9 @@
    (Spec/PredicateSpec.v) = u16 edge_start / edges, 32-byte program addresses; wf_solution = 32-byte addresses,
    i64 words, lengths < 2^64; pwf_X (Proofs/PostcardAllProofs.v) = the components are well formed and every
    Vec has fewer than 2^64 elements; swf_contract / swf_signed_contract (Proofs/HexSerdeProofs.v) = the same
-   without length bounds. *)
+   without length bounds.
+   Readers: varint_dec 10 / varint_dec 3 = try_take_varint_u64 (= usize) / _u16 including the last-byte limit;
+   dec_seq d = varint count then the items, with the unread input as fuel (dec_seq_naive: the count as fuel). *)
 From Coq Require Import ZArith List.
 From EB Require Import Types.PostcardAll Spec.PredicateSpec Proofs.HexSerdeProofs Proofs.PostcardAllProofs.
 Import ListNotations.
@@ -200,6 +202,113 @@ Theorem PCA_signed_contract_decoded_wf : forall bs sc r,
   Forall byte bs -> dec_signed_contract bs = Some (sc, r) -> swf_signed_contract sc /\ Forall byte r.
 Proof. exact dec_signed_contract_sound. Qed.
 
+(* ---- fidelity of the readers on damaged input (postcard 1.0.10 src/de/deserializer.rs, src/varint.rs) ---- *)
+
+(* What the u64 / usize varint reader (`varint_dec 10` = try_take_varint_u64) accepts from a byte string is a u64,
+   and it has read between 1 and 10 bytes. *)
+Theorem PCA_varint_u64_canonical_range : forall bs n r,
+  Forall byte bs -> varint_dec 10 bs = Some (n, r) ->
+  0 <= n < 2 ^ 64 /\ exists pre, bs = pre ++ r /\ (1 <= length pre <= 10)%nat.
+Proof. exact varint_u64_canonical_range. Qed.
+
+(* The 10th byte may be at most max_of_last_byte::<u64>() = 1 and may not have the continuation bit: 2^64 and above
+   (255 x9, 2), 11 bytes, or a truncated number are DeserializeBadVarint / UnexpectedEnd; 2^64-1 is read.
+   Padding IS accepted by postcard (the loop returns Ok(out) at the first byte without continuation bit, the
+   last-byte check applies to the 10th byte only), also up to the full length: [128 x9, 0] is 0. *)
+Example PCA_varint_u64_rejects_overflow :
+  varint_dec 10 (repeat 255 9 ++ [2]) = None /\
+  varint_dec 10 (repeat 255 9 ++ [1]) = Some (2 ^ 64 - 1, []) /\
+  varint_dec 10 (repeat 255 9 ++ [1; 7]) = Some (18446744073709551615, [7]) /\
+  varint_dec 10 (repeat 255 11) = None /\
+  varint_dec 10 (repeat 255 9 ++ [129; 0]) = None /\
+  varint_dec 10 (repeat 255 9 ++ [127]) = None /\
+  varint_dec 10 (repeat 255 9) = None /\
+  varint_dec 10 [128; 0] = Some (0, []) /\
+  varint_dec 10 (repeat 128 9 ++ [0]) = Some (0, []) /\
+  varint_dec 10 (repeat 128 9 ++ [1]) = Some (2 ^ 63, []) /\
+  dec_i64 (repeat 255 9 ++ [1]) = Some (- 2 ^ 63, []) /\ dec_i64 (repeat 255 9 ++ [2]) = None.
+Proof. vm_compute. repeat split. Qed.
+
+(* The u16 reader is try_take_varint_u16 (third byte at most 3): on bytes, the value check of dec_u16 is implied. *)
+Theorem PCA_u16_is_varint_dec : forall bs, Forall byte bs -> dec_u16 bs = varint_dec 3 bs.
+Proof. exact dec_u16_is_varint_dec. Qed.
+
+(* A sequence whose claimed length exceeds the number of unread bytes is rejected ... *)
+Theorem PCA_dec_seq_rejects_large_count : forall (A : Type) (d : list Z -> option (A * list Z)) bs n r,
+  varint_dec 10 bs = Some (n, r) -> zlen r < n -> dec_seq d bs = None.
+Proof. exact @dec_seq_short. Qed.
+
+(* ... and at once: 2^60 claimed items (the varint 128 x8, 16) on a few bytes of input. *)
+Example PCA_dec_seq_total_cheap :
+  dec_seq dec_i64 (repeat 128 8 ++ [16; 2; 4; 6]) = None /\
+  varint_dec 10 (repeat 128 8 ++ [16; 2; 4; 6]) = Some (2 ^ 60, [2; 4; 6]) /\
+  from_bytes dec_solution_set (repeat 128 8 ++ [16] ++ pc_solution ex_solution) = None /\
+  from_bytes dec_program (repeat 255 9 ++ [1; 1; 2; 3]) = None /\
+  from_bytes dec_contract ([255; 255; 255; 255; 15] ++ pc_contract (sc_contract ex_signed_contract)) = None /\
+  dec_seq dec_i64 [3; 2; 4; 6; 9] = Some ([1; 2; 3], [9]) /\ dec_seq dec_i64 [4; 2; 4; 6] = None.
+Proof. vm_compute. repeat split. Qed.
+
+(* A decoded sequence has fewer items than the input has bytes (every item takes at least one byte). *)
+Theorem PCA_dec_seq_length : forall (A : Type) (d : list Z -> option (A * list Z)),
+  (forall bs x r, d bs = Some (x, r) -> exists pre, bs = pre ++ r /\ (0 < length pre)%nat) ->
+  forall bs xs r, dec_seq d bs = Some (xs, r) -> (length xs + length r < length bs)%nat.
+Proof. exact @dec_seq_length. Qed.
+
+(* Using the unread input as fuel changes nothing: every sequence reader of these types equals the plain reading
+   "varint count n, then n items" (dec_seq_naive, which recurses on n and cannot be run on a damaged count). *)
+Theorem PCA_dec_seq_is_plain_reading :
+  (forall bs, dec_words bs = dec_seq_naive dec_i64 bs) /\
+  (forall bs, dec_bytes bs = dec_seq_naive dec_u8 bs) /\
+  (forall bs, dec_seq dec_words bs = dec_seq_naive dec_words bs) /\
+  (forall bs, dec_seq dec_mutation bs = dec_seq_naive dec_mutation bs) /\
+  (forall bs, dec_solution_set bs = dec_seq_naive dec_solution bs) /\
+  (forall bs, dec_seq dec_node bs = dec_seq_naive dec_node bs) /\
+  (forall bs, dec_seq dec_u16 bs = dec_seq_naive dec_u16 bs) /\
+  (forall bs, dec_seq dec_predicate bs = dec_seq_naive dec_predicate bs).
+Proof. exact dec_seq_eq_naive_all. Qed.
+
+(* ---- decoders never read past the input: the unread rest is a proper suffix of the input ---- *)
+
+Theorem PCA_mutation_reads_prefix : forall bs x rest,
+  dec_mutation bs = Some (x, rest) -> exists pre, bs = pre ++ rest /\ (0 < length pre)%nat.
+Proof. exact dec_mutation_consumes. Qed.
+
+Theorem PCA_solution_reads_prefix : forall bs x rest,
+  dec_solution bs = Some (x, rest) -> exists pre, bs = pre ++ rest /\ (0 < length pre)%nat.
+Proof. exact dec_solution_consumes. Qed.
+
+Theorem PCA_solution_set_reads_prefix : forall bs x rest,
+  dec_solution_set bs = Some (x, rest) -> exists pre, bs = pre ++ rest /\ (0 < length pre)%nat.
+Proof. exact dec_solution_set_consumes. Qed.
+
+Theorem PCA_content_address_reads_prefix : forall bs x rest,
+  dec_content_address bs = Some (x, rest) -> exists pre, bs = pre ++ rest /\ (0 < length pre)%nat.
+Proof. exact dec_content_address_consumes. Qed.
+
+Theorem PCA_predicate_address_reads_prefix : forall bs x rest,
+  dec_predicate_address bs = Some (x, rest) -> exists pre, bs = pre ++ rest /\ (0 < length pre)%nat.
+Proof. exact dec_predicate_address_consumes. Qed.
+
+Theorem PCA_predicate_reads_prefix : forall bs x rest,
+  dec_predicate bs = Some (x, rest) -> exists pre, bs = pre ++ rest /\ (0 < length pre)%nat.
+Proof. exact dec_predicate_consumes. Qed.
+
+Theorem PCA_program_reads_prefix : forall bs x rest,
+  dec_program bs = Some (x, rest) -> exists pre, bs = pre ++ rest /\ (0 < length pre)%nat.
+Proof. exact dec_program_consumes. Qed.
+
+Theorem PCA_contract_reads_prefix : forall bs x rest,
+  dec_contract bs = Some (x, rest) -> exists pre, bs = pre ++ rest /\ (0 < length pre)%nat.
+Proof. exact dec_contract_consumes. Qed.
+
+Theorem PCA_signature_reads_prefix : forall bs x rest,
+  dec_signature bs = Some (x, rest) -> exists pre, bs = pre ++ rest /\ (0 < length pre)%nat.
+Proof. exact dec_signature_consumes. Qed.
+
+Theorem PCA_signed_contract_reads_prefix : forall bs x rest,
+  dec_signed_contract bs = Some (x, rest) -> exists pre, bs = pre ++ rest /\ (0 < length pre)%nat.
+Proof. exact dec_signed_contract_consumes. Qed.
+
 (* ---- examples; the expected bytes are the output of `postcard::to_allocvec` of the real crate ---- *)
 
 Example PCA_ex_u16_bytes :
@@ -313,3 +422,13 @@ Example PCA_ex_signed_contract_bytes :
      25; 26; 27; 28; 29; 30; 31; 32; 33; 34; 35; 36; 37; 38; 39; 40; 41; 42; 43; 44; 45; 46; 47; 48; 49; 50;
      51; 52; 53; 54; 55; 56; 57; 58; 59; 60; 61; 62; 63; 3].
 Proof. vm_compute. reflexivity. Qed.
+
+(* The strict reader of a Solution (addresses must be 32 bytes, as hash::deserialize::<32> demands) reads every well-formed
+   solution back, and whatever it reads the plain reader reads too. *)
+Theorem PCA_solution_strict_roundtrip : forall s rest,
+  wf_solution s -> dec_solution_strict (pc_solution s ++ rest) = Some (s, rest).
+Proof. exact dec_solution_strict_roundtrip. Qed.
+Theorem PCA_solution_strict_sound : forall bs s r,
+  dec_solution_strict bs = Some (s, r) ->
+  dec_solution bs = Some (s, r) /\ length (sol_contract s) = 32%nat /\ length (sol_predicate s) = 32%nat.
+Proof. exact dec_solution_strict_sound. Qed.
